@@ -217,7 +217,7 @@ func c13Run(c *mon.Ctx) {
 			circ.Rect()
 			circ.Valid()
 			circ.Intersects(geojson.NewRect(geometry.Rect{Min: center, Max: center}))
-			if js2 := circ.JSON(); js2 != wantJS || circ.Meters() != m || circ.Center() != center {
+			if js2 := circ.JSON(); js2 != js || circ.Meters() != m || circ.Center() != center {
 				c.Violation("changed-by-query", "a circle serialises differently (or reports another radius) after it has been queried", mkc("JSON after queries", js2, wantJS))
 			}
 			c.Count("requeried_after_use")
